@@ -202,6 +202,8 @@ class Verdict:
 
     def ok(self, rid, instance, detail=''):
         self.obligations.append((rid, instance, True, detail))
+        if os.environ.get('VERIF_VERBOSE'):
+            print('  ok   [%s] %s — %s' % (rid, instance, str(detail)[:300]))
         self.counts[rid] = self.counts.get(rid, 0) + 1
         if len(self.samples) < 40 and (len([s for s in self.samples if s['rule'] == rid]) < 4):
             self.samples.append({'rule': rid, 'instance': instance, 'verdict': 'holds',
